@@ -874,3 +874,15 @@ pub fn cb_action(uid: u32) {
     w.fault_point(FaultKind::Action);
     w.run_script(ScriptCtx::Act, None, &script);
 }
+
+/// A no-op action registered in bulk (C10 with very many actions / cleanables on one cleaner).
+pub fn cb_bulk_action(map: ObjId) {
+    let Some(w) = world() else { return };
+    if w.dead.get() {
+        return;
+    }
+    let mut m = w.m.borrow_mut();
+    if (map as usize) < m.objs.len() {
+        m.objs[map as usize].bulk_runs += 1;
+    }
+}
